@@ -58,7 +58,454 @@ Proof. intros. unfold split. destruct (Z.ltb_spec total epochs); [reflexivity|li
 Lemma split_zero_epochs total : 0 <= total -> split total 0 = Panic.
 Proof. intros. unfold split. destruct (Z.ltb_spec total 0); [lia|]. reflexivity. Qed.
 
-(* SENDS-TRIGGER-HISTORIES: rewritten below *)
+(* ---------------- sends ---------------- *)
+Definition nonneg_pays (l : pays) : Prop := Forall (fun p => 0 <= snd p) l.
+
+Lemma do_sends_spec rewards : forall bal, nonneg_pays rewards ->
+  let '(b, ps) := do_sends bal rewards in
+  b = bal - pay_total ps /\ 0 <= pay_total ps <= pay_total rewards /\ (0 <= bal -> 0 <= b).
+Proof.
+  unfold pay_total. induction rewards as [|[a r] rest IH]; intros bal Hr; cbn [do_sends].
+  - cbn. lia.
+  - inversion Hr as [|? ? Hr0 Hr']; subst. cbn [snd] in Hr0. destruct (Z.leb_spec r bal).
+    + specialize (IH (bal - r) Hr'). destruct (do_sends (bal - r) rest) as [b ps].
+      destruct IH as (A & B & C). cbn [map snd zsum]. lia.
+    + specialize (IH bal Hr'). destruct (do_sends bal rest) as [b ps].
+      destruct IH as (A & B & C). cbn [map snd zsum]. lia.
+Qed.
+
+Lemma existsb_neg_false (l : pays) : existsb (fun r => snd r <? 0) l = false -> nonneg_pays l.
+Proof.
+  induction l as [|x l IH]; cbn [existsb]; intros H; constructor.
+  - destruct (Z.ltb_spec (snd x) 0); [discriminate|lia].
+  - apply IH. destruct (snd x <? 0); [discriminate|exact H].
+Qed.
+
+Lemma nonneg_pays_total l : nonneg_pays l -> 0 <= pay_total l.
+Proof. unfold pay_total. induction 1; cbn [map zsum]; lia. Qed.
+
+(* BeginRewardDistributions: what is booked is what was calculated (whatever the balance), it fits
+   in the coins to distribute, and the receivers get at most that *)
+Lemma distribute_spec calc coins bal tot bal' paid :
+  distribute calc coins bal = Ok (Some (tot, bal', paid)) ->
+  (exists rewards, calc coins = Ok rewards /\ nonneg_pays rewards /\ tot = pay_total rewards) /\
+  0 <= pay_total paid <= tot /\ tot <= coins /\ bal' = bal - pay_total paid /\ (0 <= bal -> 0 <= bal').
+Proof.
+  unfold distribute. destruct (calc coins) as [rewards| |] eqn:Ec; try discriminate.
+  destruct (existsb (fun r => snd r <? 0) rewards) eqn:Ex; [discriminate|]. apply existsb_neg_false in Ex.
+  destruct (Z.ltb_spec coins (pay_total rewards)); [discriminate|].
+  pose proof (do_sends_spec rewards bal Ex) as S. destruct (do_sends bal rewards) as [b ps].
+  intros E. injection E as <- <- <-. destruct S as (S1 & S2 & S3).
+  split; [exists rewards; auto|]. repeat split; try lia.
+Qed.
+
+Lemma distribute_bal_indep calc coins b1 b2 :
+  match distribute calc coins b1, distribute calc coins b2 with
+  | Ok (Some (t1, _, _)), Ok (Some (t2, _, _)) => t1 = t2
+  | Ok None, Ok None => True
+  | Err _, Err _ => True
+  | Panic, Panic => True
+  | _, _ => False
+  end.
+Proof.
+  unfold distribute. destruct (calc coins) as [rewards| |]; auto.
+  destruct (existsb _ rewards); auto. destruct (coins <? pay_total rewards); auto.
+  destruct (do_sends b1 rewards), (do_sends b2 rewards). reflexivity.
+Qed.
+
+(* ---------------- one trigger ---------------- *)
+(* what a trigger can do to a (non-swap-fee) gauge: nothing, deactivate, or pay one epoch *)
+Lemma trigger_spec now calc bal g g' bal' paid :
+  trigger now calc bal g = Ok (g', bal', paid) ->
+  g_deposit g' = g_deposit g /\ g_total g' = g_total g /\ g_start g' = g_start g /\
+  g_dur g' = g_dur g /\ g_swap g' = g_swap g /\ g_denom g' = g_denom g /\
+  let d := g_distributed g' - g_distributed g in
+  0 <= pay_total paid <= d /\ bal' = bal - pay_total paid /\ (0 <= bal -> 0 <= bal') /\
+  ((g_triggered g' = g_triggered g /\ d = 0 /\ paid = []) \/
+   (g_triggered g' = g_triggered g + 1 /\ d <= epoch_allocation g /\
+    epoch_allocation g <= g_deposit g - g_distributed g /\ g_active g' = g_active g /\
+    g_triggered g <> g_total g /\ g_active g = true /\ g_start g <= now)).
+Proof.
+  unfold trigger.
+  destruct ((now <? g_start g) || negb (g_active g)) eqn:Eg.
+  { intros E. injection E as <- <- <-. cbn. repeat split; try lia. left. repeat split; lia. }
+  destruct (Z.eqb_spec (g_triggered g) (g_total g)).
+  { intros E. injection E as <- <- <-. cbn. repeat split; try lia. left. repeat split; lia. }
+  unfold uint64_c. destruct ((0 <=? g_deposit g) && (g_deposit g <? two64)); [|discriminate].
+  unfold epoch_allocation.
+  destruct (split (g_deposit g) (g_total g)) as [sp| |]; try discriminate.
+  destruct (Z.leb_spec (zlen sp) (g_triggered g)).
+  { intros E. injection E as <- <- <-. cbn. repeat split; try lia. left. repeat split; lia. }
+  destruct (nth_z sp (Z.to_nat (g_triggered g))) as [amount|]; [|discriminate].
+  destruct (Z.ltb_spec (g_deposit g - g_distributed g) amount).
+  { intros E. injection E as <- <- <-. cbn. repeat split; try lia. left. repeat split; lia. }
+  destruct (distribute calc amount bal) as [[[[tot b1] ps]|]| |] eqn:Ed; try discriminate.
+  2:{ intros E. injection E as <- <- <-. cbn. repeat split; try lia. left. repeat split; lia. }
+  apply distribute_spec in Ed. destruct Ed as (_ & D1 & D2 & D3 & D4).
+  intros E. injection E as <- <- <-. cbn.
+  apply orb_false_iff in Eg. destruct Eg as [Eg1 Eg2]. apply negb_false_iff in Eg2. apply Z.ltb_ge in Eg1.
+  repeat split; try lia; try assumption; try (right; repeat split; try lia; assumption).
+Qed.
+
+(* the swap-fee branch: the allocation of the epoch is the deposit the gauge holds *)
+Lemma trigger_swap_spec calc recv bal g g' bal' paid :
+  trigger_swap calc recv bal g = Ok (g', bal', paid) ->
+  (g' = g /\ bal' = bal - pay_total paid /\ 0 <= pay_total paid <= Z.max 0 (g_deposit g) /\ (0 <= bal -> 0 <= bal') /\
+   (pay_total paid = 0 \/ kf_C19_2 calc recv g = true \/ g_swap g = false)) \/
+  (exists tot r, recv = Ok r /\ g' = g_swap_paid g tot r /\ 0 <= pay_total paid <= tot /\ tot <= Z.max 0 (g_deposit g) /\
+                 (tot = 0 \/ 0 < g_deposit g) /\ bal' = bal - pay_total paid + r /\ (0 <= bal -> 0 <= bal' - r)).
+Proof.
+  unfold trigger_swap.
+  destruct (Z.ltb_spec 0 (g_deposit g)) as [Hd|Hd].
+  - destruct (distribute calc (g_deposit g) bal) as [[[[tot b1] ps]|]| |] eqn:Ed; try discriminate.
+    2:{ intros E. injection E as <- <- <-. left. cbn. repeat split; try lia. }
+    pose proof (distribute_bal_indep calc (g_deposit g) bal (g_deposit g)) as Hi. rewrite Ed in Hi.
+    apply distribute_spec in Ed. destruct Ed as (_ & D1 & D2 & D3 & D4).
+    destruct recv as [r| |] eqn:Er; try discriminate.
+    + intros E. injection E as <- <- <-. right. exists tot, r. repeat split; try lia.
+    + intros E. injection E as <- <- <-. left. repeat split; try lia.
+      destruct (Z.eq_dec (pay_total ps) 0) as [|Hp]; [left; assumption|]. right.
+      destruct (g_swap g) eqn:Es; [left|right; reflexivity].
+      unfold kf_C19_2. rewrite Es. destruct (Z.ltb_spec 0 (g_deposit g)); [|lia]. cbn [andb is_ok negb].
+      destruct (distribute calc (g_deposit g) (g_deposit g)) as [[[[t2 b2] p2]|]| |]; try contradiction.
+      subst t2. apply Z.ltb_lt. lia.
+  - destruct recv as [r| |]; try discriminate.
+    + intros E. injection E as <- <- <-. right. exists 0, r. cbn. repeat split; try lia.
+    + intros E. injection E as <- <- <-. left. cbn. repeat split; try lia.
+Qed.
+
+(* ---------------- invariants ---------------- *)
+Definition GInv (g : gauge) : Prop :=
+  if g_swap g then 0 <= g_deposit g else 0 <= g_distributed g <= g_deposit g.
+Definition XInv (x : ext) : Prop := 0 <= x_avail x.
+Definition BInv (b : bank) : Prop := forall d, 0 <= b d.
+
+Lemma g_rem_nonneg g : GInv g -> 0 <= g_rem g.
+Proof. unfold GInv, g_rem. destruct (g_swap g); lia. Qed.
+
+Lemma kf2_regular calc recv g : g_swap g = false -> kf_C19_2 calc recv g = false.
+Proof. intros H. unfold kf_C19_2. rewrite H. reflexivity. Qed.
+
+(* one gauge, one epoch: the remainder falls by at least what leaves the custody account *)
+Lemma trigger_any_step now calc recv bal g g' bal' paid :
+  trigger_any now calc recv bal g = Ok (g', bal', paid) -> GInv g -> 0 <= bal -> recv_wf recv = true ->
+  kf_C19_2 calc recv g = false ->
+  GInv g' /\ 0 <= bal' /\ g_rem g' - g_rem g <= bal' - bal /\ g_denom g' = g_denom g /\ g_dur g' = g_dur g.
+Proof.
+  unfold trigger_any, GInv, g_rem. intros E HG Hb Hw Hk. destruct (g_swap g) eqn:Es.
+  - apply trigger_swap_spec in E. destruct E as [(-> & B & C & B' & D)|(tot & r & -> & -> & C & D & F & G & G')].
+    + rewrite Es. destruct D as [D|[D|D]]; [|congruence|congruence]. repeat split; lia.
+    + cbn [recv_wf] in Hw. apply Z.leb_le in Hw. cbn [g_swap_paid g_swap g_deposit g_distributed g_denom g_dur]. rewrite Es.
+      repeat split; lia.
+  - apply trigger_spec in E. destruct E as (D1 & D2 & D3 & D4 & D5 & D6 & D7). cbv zeta in D7.
+    destruct D7 as (P1 & P2 & P3 & P4). rewrite D5, Es.
+    destruct P4 as [(A & B & C)|(A & B & C & D & F)]; repeat split; try lia; auto.
+Qed.
+
+(* without any hypothesis on classes: a non-swap-fee gauge never books more than its deposit *)
+Definition GInvR (g : gauge) : Prop := g_swap g = false -> 0 <= g_distributed g <= g_deposit g.
+Lemma trigger_any_ginvr now calc recv bal g g' bal' paid :
+  trigger_any now calc recv bal g = Ok (g', bal', paid) -> GInvR g -> GInvR g' /\ g_swap g' = g_swap g.
+Proof.
+  unfold trigger_any, GInvR. intros E HG. destruct (g_swap g) eqn:Es.
+  - apply trigger_swap_spec in E. destruct E as [(-> & _)|(tot & r & _ & -> & _)].
+    + rewrite Es. split; [discriminate|reflexivity].
+    + cbn [g_swap_paid g_swap]. rewrite Es. split; [discriminate|reflexivity].
+  - apply trigger_spec in E. destruct E as (D1 & D2 & D3 & D4 & D5 & D6 & D7). cbv zeta in D7.
+    destruct D7 as (P1 & P2 & P3 & P4). rewrite D5, Es. split; [|reflexivity]. intros _. specialize (HG eq_refl).
+    destruct P4 as [(A & B & C)|(A & B & C & D & F)]; lia.
+Qed.
+
+Lemma owed_g_cons d g gs : owed_g d (g :: gs) = (if g_denom g =? d then g_rem g else 0) + owed_g d gs.
+Proof. reflexivity. Qed.
+Lemma owed_x_cons d x xs : owed_x d (x :: xs) = (if x_denom x =? d then x_avail x else 0) + owed_x d xs.
+Proof. reflexivity. Qed.
+Lemma owed_g_app d a b : owed_g d (a ++ b) = owed_g d a + owed_g d b.
+Proof. unfold owed_g. rewrite map_app. induction (map _ a) as [|x l IH]; cbn [app zsum]; lia. Qed.
+Lemma owed_x_app d a b : owed_x d (a ++ b) = owed_x d a + owed_x d b.
+Proof. unfold owed_x. rewrite map_app. induction (map _ a) as [|x l IH]; cbn [app zsum]; lia. Qed.
+
+Lemma recv_wf_hd rv : forallb recv_wf rv = true -> recv_wf (hd_recv rv) = true /\ forallb recv_wf (tl rv) = true.
+Proof. destruct rv as [|r rv]; cbn; [auto|]. intros H. apply andb_true_iff in H. exact H. Qed.
+
+Lemma bset_same b d v : bset b d v d = v.
+Proof. unfold bset. rewrite Z.eqb_refl. reflexivity. Qed.
+Lemma bset_other b d v x : x <> d -> bset b d v x = b x.
+Proof. unfold bset. intros H. destruct (Z.eqb_spec x d); [contradiction|reflexivity]. Qed.
+Lemma BInv_bset b d v : BInv b -> 0 <= v -> BInv (bset b d v).
+Proof. unfold BInv, bset. intros H Hv x. destruct (x =? d); auto. Qed.
+
+(* InitateGaugesForDuration *)
+Lemma run_gauges_inv now dur : forall gs fe rv b gs' b' ps,
+  run_gauges now dur gs fe rv b = Ok (gs', b', ps) ->
+  Forall GInv gs -> BInv b -> forallb recv_wf rv = true -> kf2_pass dur gs fe rv = false ->
+  Forall GInv gs' /\ BInv b' /\ (forall d, owed_g d gs' - owed_g d gs <= b' d - b d).
+Proof.
+  induction gs as [|g rest IH]; intros fe rv b gs' b' ps E HG HB Hw Hk; cbn [run_gauges] in E.
+  - injection E as <- <- <-. repeat split; [constructor|assumption|intros; lia].
+  - inversion HG as [|? ? Hg Hrest]; subst. cbn [kf2_pass] in Hk. apply orb_false_iff in Hk. destruct Hk as [Hk1 Hk2].
+    apply recv_wf_hd in Hw. destruct Hw as [Hw1 Hw2].
+    destruct (Z.eqb_spec (g_dur g) dur) as [Hd|Hd].
+    + cbn [andb] in Hk1.
+      destruct (trigger_any now (farm_calc (hd_farm fe)) (hd_recv rv) (b (g_denom g)) g) as [[[g1 bal1] paid]| |] eqn:Et; try discriminate.
+      destruct (run_gauges now dur rest (tl fe) (tl rv) (bset b (g_denom g) bal1)) as [[[gs1 b1] ps1]| |] eqn:Er; try discriminate.
+      injection E as <- <- <-.
+      pose proof (trigger_any_step _ _ _ _ _ _ _ _ Et Hg (HB _) Hw1 Hk1) as (T1 & T2 & T3 & T4 & T5).
+      specialize (IH _ _ _ _ _ _ Er Hrest (BInv_bset _ _ _ HB T2) Hw2 Hk2). destruct IH as (I1 & I2 & I3).
+      split; [constructor; assumption|]. split; [assumption|]. intros d. rewrite !owed_g_cons, T4. specialize (I3 d).
+      destruct (Z.eqb_spec (g_denom g) d) as [He|Hne].
+      * subst d. rewrite bset_same in I3. lia.
+      * rewrite bset_other in I3 by congruence. lia.
+    + destruct (run_gauges now dur rest (tl fe) (tl rv) b) as [[[gs1 b1] ps1]| |] eqn:Er; try discriminate.
+      injection E as <- <- <-. specialize (IH _ _ _ _ _ _ Er Hrest HB Hw2 Hk2). destruct IH as (I1 & I2 & I3).
+      split; [constructor; assumption|]. split; [assumption|]. intros d. rewrite !owed_g_cons. specialize (I3 d). lia.
+Qed.
+
+Lemma run_gauges_ginvr now dur : forall gs fe rv b gs' b' ps,
+  run_gauges now dur gs fe rv b = Ok (gs', b', ps) -> Forall GInvR gs -> Forall GInvR gs'.
+Proof.
+  induction gs as [|g rest IH]; intros fe rv b gs' b' ps E HG; cbn [run_gauges] in E.
+  - injection E as <- <- <-. constructor.
+  - inversion HG as [|? ? Hg Hrest]; subst. destruct (g_dur g =? dur).
+    + destruct (trigger_any _ _ _ _ g) as [[[g1 bal1] paid]| |] eqn:Et; try discriminate.
+      destruct (run_gauges now dur rest _ _ _) as [[[gs1 b1] ps1]| |] eqn:Er; try discriminate.
+      injection E as <- <- <-. constructor; [|eapply IH; eassumption].
+      exact (proj1 (trigger_any_ginvr _ _ _ _ _ _ _ _ Et Hg)).
+    + destruct (run_gauges now dur rest _ _ _) as [[[gs1 b1] ps1]| |] eqn:Er; try discriminate.
+      injection E as <- <- <-. constructor; [assumption|eapply IH; eassumption].
+Qed.
+
+(* TriggerAndUpdateEpochInfos *)
+Lemma run_epochs_inv now : forall es gs fe rv b es' gs' b' ps,
+  run_epochs now es gs fe rv b = Ok (es', gs', b', ps) ->
+  Forall GInv gs -> BInv b -> forallb recv_wf rv = true -> kf2_epochs now es gs fe rv b = false ->
+  Forall GInv gs' /\ BInv b' /\ (forall d, owed_g d gs' - owed_g d gs <= b' d - b d).
+Proof.
+  induction es as [|e rest IH]; intros gs fe rv b es' gs' b' ps E HG HB Hw Hk; cbn [run_epochs] in E.
+  - injection E as <- <- <- <-. repeat split; [assumption|assumption|intros; lia].
+  - cbn [kf2_epochs] in Hk. destruct (epoch_tick now e) as [e1 r]. cbn [snd] in Hk.
+    destruct r.
+    1,2,4: (destruct (run_epochs now rest gs fe rv b) as [[[[es1 gs2] b2] ps2]| |] eqn:Er; try discriminate;
+            injection E as <- <- <- <-; exact (IH _ _ _ _ _ _ _ _ Er HG HB Hw Hk)).
+    apply orb_false_iff in Hk. destruct Hk as [Hk1 Hk2].
+    destruct (run_gauges now (e_dur e) gs fe rv b) as [[[gs1 b1] ps1]| |] eqn:Eg; try discriminate.
+    destruct (run_epochs now rest gs1 fe rv b1) as [[[[es1 gs2] b2] ps2]| |] eqn:Er; try discriminate.
+    injection E as <- <- <- <-.
+    pose proof (run_gauges_inv _ _ _ _ _ _ _ _ _ Eg HG HB Hw Hk1) as (G1 & G2 & G3).
+    pose proof (IH _ _ _ _ _ _ _ _ Er G1 G2 Hw Hk2) as (I1 & I2 & I3).
+    split; [assumption|]. split; [assumption|]. intros d. specialize (G3 d). specialize (I3 d). lia.
+Qed.
+
+Lemma run_epochs_ginvr now : forall es gs fe rv b es' gs' b' ps,
+  run_epochs now es gs fe rv b = Ok (es', gs', b', ps) -> Forall GInvR gs -> Forall GInvR gs'.
+Proof.
+  induction es as [|e rest IH]; intros gs fe rv b es' gs' b' ps E HG; cbn [run_epochs] in E.
+  - injection E as <- <- <- <-. assumption.
+  - destruct (epoch_tick now e) as [e1 r]. destruct r.
+    1,2,4: (destruct (run_epochs now rest gs fe rv b) as [[[[es1 gs2] b2] ps2]| |] eqn:Er; try discriminate;
+            injection E as <- <- <- <-; exact (IH _ _ _ _ _ _ _ _ Er HG)).
+    destruct (run_gauges now (e_dur e) gs fe rv b) as [[[gs1 b1] ps1]| |] eqn:Eg; try discriminate.
+    destruct (run_epochs now rest gs1 fe rv b1) as [[[[es1 gs2] b2] ps2]| |] eqn:Er; try discriminate.
+    injection E as <- <- <- <-. eapply IH; [eassumption|]. eapply run_gauges_ginvr; eassumption.
+Qed.
+
+(* ---------------- external programs ---------------- *)
+Lemma ext_loop_spec x now total : forall pop bal tracker b t ps,
+  ext_loop x now total pop bal tracker = Ok (b, t, ps) ->
+  b = bal - pay_total ps /\ 0 <= pay_total ps <= t - tracker /\ (0 <= bal -> 0 <= b).
+Proof.
+  unfold pay_total. induction pop as [|[[a net] created] rest IH]; intros bal tracker b t ps E; cbn [ext_loop] in E.
+  - injection E as <- <- <-. cbn. lia.
+  - destruct (negb (x_count x =? x_days x - 1) && (now - created <? x_minlock x)); [exact (IH _ _ _ _ _ E)|].
+    destruct (ext_final _ _ _ _ _) as [f| |]; try discriminate.
+    destruct (Z.ltb_spec 0 f); [|exact (IH _ _ _ _ _ E)].
+    destruct (Z.leb_spec f bal).
+    + destruct (ext_loop x now total rest (bal - f) (tracker + f)) as [[[b1 t1] ps1]| |] eqn:Er; try discriminate.
+      injection E as <- <- <-. apply IH in Er. cbn [map snd zsum]. lia.
+    + destruct (ext_loop x now total rest bal (tracker + f)) as [[[b1 t1] ps1]| |] eqn:Er; try discriminate.
+      injection E as <- <- <-. apply IH in Er. cbn [map snd zsum]. lia.
+Qed.
+
+(* what is booked does not depend on the custody balance *)
+Lemma ext_loop_indep x now total : forall pop b1 b2 tr,
+  match ext_loop x now total pop b1 tr, ext_loop x now total pop b2 tr with
+  | Ok (_, t1, _), Ok (_, t2, _) => t1 = t2
+  | Err _, Err _ => True
+  | Panic, Panic => True
+  | _, _ => False
+  end.
+Proof.
+  induction pop as [|[[a net] created] rest IH]; intros b1 b2 tr; cbn [ext_loop]; [reflexivity|].
+  destruct (negb (x_count x =? x_days x - 1) && (now - created <? x_minlock x)); [apply IH|].
+  destruct (ext_final _ _ _ _ _) as [f| |]; auto.
+  destruct (0 <? f); [|apply IH].
+  set (p1 := if f <=? b1 then (b1 - f, f) else (b1, 0)). set (p2 := if f <=? b2 then (b2 - f, f) else (b2, 0)).
+  destruct p1 as [c1 g1], p2 as [c2 g2]. specialize (IH c1 c2 (tr + f)).
+  destruct (ext_loop x now total rest c1 (tr + f)) as [[[? ?] ?]| |], (ext_loop x now total rest c2 (tr + f)) as [[[? ?] ?]| |]; auto.
+Qed.
+
+Lemma ext_tick_step now e bal x x' bal' paid :
+  ext_tick now e bal x = Ok (x', bal', paid) -> XInv x -> 0 <= bal -> kf_C19_3 now e x = false ->
+  XInv x' /\ 0 <= bal' /\ x_avail x' - x_avail x <= bal' - bal /\ x_denom x' = x_denom x /\ x_kind x' = x_kind x.
+Proof.
+  unfold XInv, kf_C19_3, ext_tick. intros E HX Hb Hk.
+  destruct (negb (x_active x)). { injection E as <- <- <-. repeat split; lia. }
+  destruct (negb (x_next x <? now)). { injection E as <- <- <-. repeat split; lia. }
+  destruct (x_count x <? x_days x).
+  2:{ injection E as <- <- <-. cbn. repeat split; lia. }
+  pose proof (ext_loop_indep x now (xe_total e) (xe_pop e) bal 0 0) as Hi.
+  destruct (ext_loop x now (xe_total e) (xe_pop e) bal 0) as [[[b1 t1] ps1]| |] eqn:El; try discriminate.
+  injection E as <- <- <-. apply ext_loop_spec in El. cbn [x_avail x_denom x_kind].
+  destruct (ext_loop x now (xe_total e) (xe_pop e) 0 0) as [[[b2 t2] ps2]| |]; try contradiction.
+  subst t2. cbn [x_avail] in Hk. apply Z.ltb_ge in Hk. repeat split; lia.
+Qed.
+
+Lemma run_exts_inv kind now : forall xs xe b xs' b' ps,
+  run_exts kind now xs xe b = Ok (xs', b', ps) ->
+  Forall XInv xs -> BInv b -> kf3_pass kind now xs xe = false ->
+  Forall XInv xs' /\ BInv b' /\ (forall d, owed_x d xs' - owed_x d xs <= b' d - b d).
+Proof.
+  induction xs as [|x rest IH]; intros xe b xs' b' ps E HX HB Hk; cbn [run_exts] in E.
+  - injection E as <- <- <-. repeat split; [constructor|assumption|intros; lia].
+  - inversion HX as [|? ? Hx Hrest]; subst. cbn [kf3_pass] in Hk. apply orb_false_iff in Hk. destruct Hk as [Hk1 Hk2].
+    destruct (Z.eqb_spec (x_kind x) kind) as [Hd|Hd].
+    + cbn [andb] in Hk1.
+      destruct (ext_tick now (hd_xenv xe) (b (x_denom x)) x) as [[[x1 bal1] paid]| |] eqn:Et; try discriminate.
+      destruct (run_exts kind now rest (tl xe) (bset b (x_denom x) bal1)) as [[[xs1 b1] ps1]| |] eqn:Er; try discriminate.
+      injection E as <- <- <-.
+      pose proof (ext_tick_step _ _ _ _ _ _ _ Et Hx (HB _) Hk1) as (T1 & T2 & T3 & T4 & T5).
+      specialize (IH _ _ _ _ _ Er Hrest (BInv_bset _ _ _ HB T2) Hk2). destruct IH as (I1 & I2 & I3).
+      split; [constructor; assumption|]. split; [assumption|]. intros d. rewrite !owed_x_cons, T4. specialize (I3 d).
+      destruct (Z.eqb_spec (x_denom x) d) as [He|Hne].
+      * subst d. rewrite bset_same in I3. lia.
+      * rewrite bset_other in I3 by congruence. lia.
+    + destruct (run_exts kind now rest (tl xe) b) as [[[xs1 b1] ps1]| |] eqn:Er; try discriminate.
+      injection E as <- <- <-. specialize (IH _ _ _ _ _ Er Hrest HB Hk2). destruct IH as (I1 & I2 & I3).
+      split; [constructor; assumption|]. split; [assumption|]. intros d. rewrite !owed_x_cons. specialize (I3 d). lia.
+Qed.
+
+(* ---------------- histories ---------------- *)
+Definition RInv (s : rstate) : Prop :=
+  Forall GInv (r_gauges s) /\ Forall XInv (r_exts s) /\ BInv (r_bal s) /\ forall d, owed d s <= r_bal s d.
+
+Lemma begin_block_inv now e s s' ps :
+  begin_block now e s = Ok (s', ps) -> RInv s -> forallb recv_wf (be_recv e) = true ->
+  kf2_begin now e s = false -> kf3_begin now e s = false -> RInv s'.
+Proof.
+  unfold begin_block, kf2_begin, kf3_begin, RInv, owed. intros E (HG & HX & HB & HO) Hw K2 K3.
+  destruct (run_epochs now (r_epochs s) (r_gauges s) (be_farm e) (be_recv e) (r_bal s)) as [[[[es gs] b1] p1]| |] eqn:E1; try discriminate.
+  apply orb_false_iff in K3. destruct K3 as [K3a K3b].
+  destruct (run_exts 0 now (r_exts s) (be_ext e) b1) as [[[xs1 b2] p2]| |] eqn:E2; try discriminate.
+  destruct (run_exts 1 now xs1 (be_ext e) b2) as [[[xs2 b3] p3]| |] eqn:E3; try discriminate.
+  injection E as <- <-. cbn [r_bal r_gauges r_exts].
+  pose proof (run_epochs_inv _ _ _ _ _ _ _ _ _ _ E1 HG HB Hw K2) as (A1 & A2 & A3).
+  pose proof (run_exts_inv _ _ _ _ _ _ _ _ E2 HX A2 K3a) as (B1 & B2 & B3).
+  pose proof (run_exts_inv _ _ _ _ _ _ _ _ E3 B1 B2 K3b) as (C1 & C2 & C3).
+  repeat split; try assumption. intros d. specialize (HO d). specialize (A3 d). specialize (B3 d). specialize (C3 d). lia.
+Qed.
+
+Lemma rstep_inv s o s' ps : RInv s -> op_wf o = true -> kf_step s o = false -> rstep s o = Ok (s', ps) -> RInv s'.
+Proof.
+  intros HI Hw Hk. pose proof HI as (HG & HX & HB & HO).
+  destruct o as [d dep total start now dur funds meta|d now dur|kind d total days minlock now funds ok|now e|d a]; cbn [rstep].
+  - destruct (_ || _) eqn:E; [discriminate|]. intros H. injection H as <- <-.
+    repeat (apply orb_false_iff in E; destruct E as [E ?]).
+    assert (0 < dep) by lia. unfold RInv, owed. cbn [r_bal r_gauges r_exts]. repeat split.
+    + apply Forall_app. split; [assumption|]. constructor; [|constructor]. unfold GInv; cbn; lia.
+    + assumption.
+    + intros x. unfold bset. specialize (HB x). destruct (Z.eqb_spec x d); [subst x|]; lia.
+    + intros x. rewrite owed_g_app, owed_g_cons. replace (owed_g x []) with 0 by reflexivity. cbn [g_denom g_rem g_swap g_deposit g_distributed].
+      specialize (HO x). unfold owed in HO. unfold bset. rewrite (Z.eqb_sym d x). destruct (Z.eqb_spec x d); [subst x|]; lia.
+  - intros H. injection H as <- <-. unfold RInv, owed. cbn [r_bal r_gauges r_exts]. repeat split; try assumption.
+    + apply Forall_app. split; [assumption|]. constructor; [|constructor]. unfold GInv; cbn; lia.
+    + intros x. rewrite owed_g_app, owed_g_cons. replace (owed_g x []) with 0 by reflexivity. cbn [g_denom g_rem g_swap g_deposit].
+      specialize (HO x). unfold owed in HO. destruct (d =? x); lia.
+  - destruct (_ || _) eqn:E; [discriminate|]. intros H. injection H as <- <-.
+    repeat (apply orb_false_iff in E; destruct E as [E ?]).
+    assert (0 < total) by lia. unfold RInv, owed. cbn [r_bal r_gauges r_exts]. repeat split.
+    + assumption.
+    + apply Forall_app. split; [assumption|]. constructor; [|constructor]. unfold XInv; cbn; lia.
+    + intros x. unfold bset. specialize (HB x). destruct (Z.eqb_spec x d); [subst x|]; lia.
+    + intros x. rewrite owed_x_app, owed_x_cons. replace (owed_x x []) with 0 by reflexivity. cbn [x_denom x_avail].
+      specialize (HO x). unfold owed in HO. unfold bset. rewrite (Z.eqb_sym d x). destruct (Z.eqb_spec x d); [subst x|]; lia.
+  - intros H. cbn [kf_step] in Hk. apply orb_false_iff in Hk. destruct Hk as [K2 K3]. cbn [op_wf] in Hw.
+    eapply begin_block_inv; eassumption.
+  - destruct (Z.ltb_spec a 0); [discriminate|]. intros H'. injection H' as <- <-.
+    unfold RInv, owed. cbn [r_bal r_gauges r_exts]. repeat split; try assumption.
+    + intros x. unfold bset. specialize (HB x). destruct (Z.eqb_spec x d); [subst x|]; lia.
+    + intros x. specialize (HO x). unfold owed in HO. unfold bset. destruct (Z.eqb_spec x d); [subst x|]; lia.
+Qed.
+
+Lemma rapply_inv s o : RInv s -> op_wf o = true -> kf_step s o = false -> RInv (rapply s o).
+Proof.
+  intros H Hw Hk. unfold rapply. destruct (rstep s o) as [[s' ps]| |] eqn:E; [eapply rstep_inv; eassumption|assumption|assumption].
+Qed.
+
+Lemma rrun_inv ops : forall s, RInv s -> forallb op_wf ops = true -> run_clean s ops = true -> RInv (rrun s ops).
+Proof.
+  induction ops as [|o ops IH]; intros s H Hw Hc; cbn; [assumption|].
+  cbn [forallb] in Hw. apply andb_true_iff in Hw. destruct Hw as [Hw1 Hw2].
+  cbn [run_clean] in Hc. apply andb_true_iff in Hc. destruct Hc as [Hc1 Hc2]. apply negb_true_iff in Hc1.
+  apply IH; [apply rapply_inv; assumption|assumption|assumption].
+Qed.
+
+Lemma rinv_init : RInv rinit.
+Proof.
+  unfold RInv, rinit. cbn [r_gauges r_exts r_bal]. split; [constructor|]. split; [constructor|].
+  split; [intros d; lia|]. intros d. unfold owed. cbn. lia.
+Qed.
+
+Lemma owed_active_le d gs xs : Forall GInv gs -> Forall XInv xs -> owed_active d gs xs <= owed_g d gs + owed_x d xs.
+Proof.
+  intros HG HX. unfold owed_active, owed_g, owed_x.
+  assert (A : zsum (map (fun g => if (g_denom g =? d) && g_active g then g_rem g else 0) gs) <=
+              zsum (map (fun g => if g_denom g =? d then g_rem g else 0) gs)).
+  { induction HG as [|g gs Hg _ IH]; cbn [map zsum]; [lia|]. apply g_rem_nonneg in Hg.
+    destruct (g_denom g =? d), (g_active g); cbn [andb]; lia. }
+  assert (B : zsum (map (fun x => if (x_denom x =? d) && x_active x then x_avail x else 0) xs) <=
+              zsum (map (fun x => if x_denom x =? d then x_avail x else 0) xs)).
+  { induction HX as [|x xs Hx _ IH]; cbn [map zsum]; [lia|]. unfold XInv in Hx.
+    destruct (x_denom x =? d), (x_active x); cbn [andb]; lia. }
+  lia.
+Qed.
+
+(* custody, every clean history: the predicate the harness evaluates holds on the model *)
+Lemma custody_clean ops d : forallb op_wf ops = true -> run_clean rinit ops = true ->
+  let s := rrun rinit ops in
+  owed d s <= r_bal s d /\ holds_C19_custody d (r_bal s d) (r_gauges s) (r_exts s) = true.
+Proof.
+  intros Hw Hc. pose proof (rrun_inv ops _ rinv_init Hw Hc) as (HG & HX & HB & HO). cbv zeta.
+  split; [apply HO|]. unfold holds_C19_custody. apply andb_true_iff. split.
+  - apply forallb_forall. intros x Hin. rewrite Forall_forall in HX. specialize (HX x Hin). unfold XInv in HX.
+    apply orb_true_iff. right. apply Z.leb_le. assumption.
+  - apply Z.leb_le. specialize (HO d). unfold owed in HO. pose proof (owed_active_le d _ _ HG HX). lia.
+Qed.
+
+(* cumulative distributed <= deposit for every non-swap-fee gauge, EVERY history (no class excluded) *)
+Lemma begin_block_ginvr now e s s' ps : begin_block now e s = Ok (s', ps) -> Forall GInvR (r_gauges s) -> Forall GInvR (r_gauges s').
+Proof.
+  unfold begin_block. intros E HG.
+  destruct (run_epochs now (r_epochs s) (r_gauges s) (be_farm e) (be_recv e) (r_bal s)) as [[[[es gs] b1] p1]| |] eqn:E1; try discriminate.
+  destruct (run_exts 0 now (r_exts s) (be_ext e) b1) as [[[xs1 b2] p2]| |]; try discriminate.
+  destruct (run_exts 1 now xs1 (be_ext e) b2) as [[[xs2 b3] p3]| |]; try discriminate.
+  injection E as <- <-. cbn [r_gauges]. eapply run_epochs_ginvr; eassumption.
+Qed.
+
+Lemma rapply_ginvr s o : Forall GInvR (r_gauges s) -> Forall GInvR (r_gauges (rapply s o)).
+Proof.
+  intros HG. unfold rapply. destruct (rstep s o) as [[s' ps]| |] eqn:E; try assumption.
+  destruct o as [d dep total start now dur funds meta|d now dur|kind d total days minlock now funds ok|now e|d a]; cbn [rstep] in E.
+  - destruct (_ || _) eqn:Ec; [discriminate|]. injection E as <- <-. cbn [r_gauges].
+    repeat (apply orb_false_iff in Ec; destruct Ec as [Ec ?]).
+    apply Forall_app. split; [assumption|]. constructor; [|constructor]. unfold GInvR; cbn; lia.
+  - injection E as <- <-. cbn [r_gauges]. apply Forall_app. split; [assumption|]. constructor; [|constructor]. unfold GInvR; cbn; discriminate.
+  - destruct (_ || _); [discriminate|]. injection E as <- <-. assumption.
+  - eapply begin_block_ginvr; eassumption.
+  - destruct (a <? 0); [discriminate|]. injection E as <- <-. assumption.
+Qed.
+
+Lemma rrun_ginvr ops : forall s, Forall GInvR (r_gauges s) -> Forall GInvR (r_gauges (rrun s ops)).
+Proof. induction ops as [|o ops IH]; intros s H; cbn; [assumption|]. apply IH. apply rapply_ginvr. assumption. Qed.
 
 (* ---------------- epochs ---------------- *)
 (* a tick never moves the epoch start beyond now, and a trigger advances exactly one epoch *)
